@@ -249,6 +249,8 @@ type Spec struct {
 	MinDistinct int                 // fail closed below this
 	Require   []string              // counters that must be > 0 (fail closed)
 	RaceBatches func(tier string) []int // batch indices to run from the -race binary
+	// Arch386Batches: batch indices to run from the GOARCH=386 build of this binary (32-bit int and pointers)
+	Arch386Batches func(tier string) []int
 	ChildTimeout func(tier string) time.Duration
 	ChildEnv  func(batch int) []string // extra env per batch
 	MemLimitMB int                    // RLIMIT_AS per child via `prlimit`-less approach (GOMEMLIMIT + watchdog)
@@ -302,6 +304,7 @@ func Main(spec Spec) {
 	out := flag.String("out", "", "evidence path")
 	replay := flag.String("replay", "", "replay witness file")
 	raceBin := flag.String("racebin", "", "path of the -race build of this binary")
+	bin386 := flag.String("bin386", "", "path of the GOARCH=386 build of this binary")
 	only := flag.Int("only", -1, "run only this batch (debug)")
 	flag.Parse()
 	if *work == "" {
@@ -342,6 +345,7 @@ func Main(spec Spec) {
 		reportReplay(spec, b, rf.Key)
 		return
 	}
+	arch386Bin = *bin386
 	runParent(spec, *tier, *seed, *work, *out, *raceBin, *only)
 }
 
@@ -432,6 +436,8 @@ func headFile(path string, n int) string {
 	return string(raw)
 }
 
+var arch386Bin string
+
 func runParent(spec Spec, tier string, seed uint64, work, out, raceBin string, only int) {
 	start := time.Now()
 	nb := 1
@@ -447,6 +453,12 @@ func runParent(spec Spec, tier string, seed uint64, work, out, raceBin string, o
 	if spec.RaceBatches != nil {
 		for _, k := range spec.RaceBatches(tier) {
 			raceSet[k] = true
+		}
+	}
+	set386 := map[int]bool{}
+	if spec.Arch386Batches != nil {
+		for _, k := range spec.Arch386Batches(tier) {
+			set386[k] = true
 		}
 	}
 	timeout := 20 * time.Minute
@@ -484,6 +496,13 @@ func runParent(spec Spec, tier string, seed uint64, work, out, raceBin string, o
 					return
 				}
 				bin = raceBin
+			}
+			if set386[k] {
+				if arch386Bin == "" {
+					outcomes[k] = childOutcome{k: k, exit: -998}
+					return
+				}
+				bin = arch386Bin
 			}
 			args := []string{"-child", fmt.Sprint(k), "-nb", fmt.Sprint(nb), "-tier", tier, "-seed", fmt.Sprint(seed), "-work", work}
 			cmdline := bin + " " + strings.Join(args, " ")
@@ -551,7 +570,7 @@ func runParent(spec Spec, tier string, seed uint64, work, out, raceBin string, o
 			continue
 		}
 		if oc.exit == -998 {
-			broken = append(broken, fmt.Sprintf("batch %d needs the -race binary but none was given", k))
+			broken = append(broken, fmt.Sprintf("batch %d needs the -race or GOARCH=386 binary but none was given", k))
 			continue
 		}
 		var r Result
